@@ -187,6 +187,10 @@ Cancel(c) ==
   /\ UNCHANGED <<kind, nl, qsize, slot, started, up, qclosed, stopst, queue, cs, cw, rj, info, lane,
                  late, rv, acc, sto, nst>>
 
+(* Stop is called by the owner (record field by = 0) or by the callee of a  *)
+(* running call (by = that call: an actor handling its own shutdown); the  *)
+(* effect is the same.  Nothing says how long Stop takes: it may return at *)
+(* once or wait for the lanes, so stopi .. stopr may span other actions.   *)
 StopI ==    \* (a second Stop is a no-op in all four executors: stopOnce)
   /\ stopst = "no"
   /\ stopst' = "ing"
@@ -252,7 +256,7 @@ CancelMatters(c) == cw[c] \in {"called", "wait", "rej"} \/ cs[c] = "queued"
 
 ExtNext ==   \* what the environment (owner, callers, callee) decides
   \/ Step([op |-> "run"])
-  \/ Step([op |-> "stopi"])
+  \/ Step([op |-> "stopi", by |-> 0])
   \/ \E c \in NextCall, h \in HashChoice, f \in Fails, p \in Pres :
        Step([op |-> "inv", c |-> c, h |-> h, fail |-> f, pre |-> p])
   \/ \E c \in Calls : \/ Step([op |-> "end", c |-> c])
@@ -298,7 +302,8 @@ GenExt ==
   IF ~started /\ RandomElement(1..10) <= 7 THEN Step([op |-> "run"])
   ELSE
     \/ Step([op |-> "run"])
-    \/ (stopst = "no" /\ (RandomElement(1..4) = 1 \/ NextCall = {})) /\ Step([op |-> "stopi"])
+    \/ (stopst = "no" /\ (RandomElement(1..4) = 1 \/ NextCall = {}))
+         /\ Step([op |-> "stopi", by |-> RandomElement({0} \cup {c \in Calls : cs[c] = "running"})])
     \/ \E c \in NextCall :
          Step([op |-> "inv", c |-> c, h |-> RandomElement(HashChoice), fail |-> RandomElement(Fails),
                pre |-> (TRUE \in Pres /\ RandomElement(1..5) = 1)])
@@ -366,13 +371,25 @@ NoOrphan == kind # "pchan" => \A c \in Calls : cs[c] # "dropped"
 (* have reached when every goroutine is parked (used by the plan           *)
 (* generator and by the `quiet` events of recorded traces).  It says that  *)
 (* every submission was answered or queued, every available reply was      *)
-(* delivered, no live idle lane has work, and a closed idle lane is gone.  *)
+(* delivered, no live idle lane has work, and a closed idle lane is gone   *)
+(* (a Stop that has not returned yet may be parked: it may be waiting for  *)
+(* the lanes).                                                             *)
 Quiescent ==
-  /\ stopst # "ing"
   /\ \A c \in Calls :
        /\ cw[c] \notin {"called", "rej"}
        /\ cw[c] = "wait" => ~(cs[c] = "done" \/ ctxd[c] \/ (kind = "pchan" /\ qclosed[0]))
   /\ \A x \in LaneIds : (up[x] /\ ~Busy(x)) => (queue[x] = <<>> /\ ~qclosed[x])
+
+(* The quiescent state at the end of a run in which the environment has    *)
+(* started the consumers, called Stop and let every callee that asked       *)
+(* return: Stop has returned, every accepted call has completed (pchan: or  *)
+(* was dropped), every caller is back and every lane goroutine is gone.     *)
+(* This is the safety form of Completes / Returns / Terminates below.       *)
+Final ==
+  /\ Quiescent
+  /\ started /\ stopst = "done"
+  /\ \A c \in Calls : cs[c] \notin {"queued", "running"} /\ cw[c] \in {"idle", "back"}
+  /\ \A x \in LaneIds : ~up[x]
 
 (* liveness, under FairSpec *)
 Completes  == \A c \in Calls : (cs[c] = "queued" /\ kind # "pchan") ~> (cs[c] \in {"done", "skipped"})
